@@ -398,7 +398,12 @@ func genLifecycle(r *Rng, idx int, tier string, step func(op string) string) {
 	for l.numPieces() > 5 {
 		l.pl *= 2
 	}
-	o := step(fmt.Sprintf("new pl=%d files=%s seq=0 cfg.AllowedFastSet=0 stopafter=%s", l.pl, l.filesArg(), b01(r.Chance(10))))
+	ntrk := 0
+	stopAfter := r.Chance(10)
+	if !stopAfter && r.Chance(35) {
+		ntrk = r.Range(1, 2) // in-process HTTP trackers that can be told not to answer the `stopped` event
+	}
+	o := step(fmt.Sprintf("new pl=%d files=%s seq=0 cfg.AllowedFastSet=0 stopafter=%s trackers=%d", l.pl, l.filesArg(), b01(stopAfter), ntrk))
 	if !strings.HasPrefix(o, "ok") {
 		return
 	}
@@ -445,9 +450,26 @@ func genLifecycle(r *Rng, idx int, tier string, step func(op string) string) {
 		case roll < 22:
 			do("start")
 		case roll < 40:
+			if ntrk > 0 && r.Chance(50) {
+				// the trackers do not answer the stopped event: the torrent stays Stopping until the stop timeout
+				do(fmt.Sprintf("trk mode=%s", r.Pick2("hang-stopped", "hang-stopped", "ok")))
+			}
 			do("stop")
+			if ntrk > 0 {
+				switch r.Intn(4) {
+				case 0:
+					do("start") // a start while the torrent is still stopping
+				case 1:
+					do("obs")
+				}
+				do("waitstop")
+				do("trk mode=ok")
+			}
 		case roll < 50:
 			do("verify")
+			if ntrk > 0 {
+				do("waitstop")
+			}
 		case roll < 58:
 			kind := r.Pick2("open", "read", "write")
 			on := !gates[kind]
@@ -499,6 +521,10 @@ func genLifecycle(r *Rng, idx int, tier string, step func(op string) string) {
 		if gates[kind] {
 			do(fmt.Sprintf("gate kind=%s on=0", kind))
 		}
+	}
+	if ntrk > 0 {
+		do("trk mode=ok")
+		do("waitstop")
 	}
 	do("start")
 	if status(last) == "Stopped" || status(last) == "Stopping" {
